@@ -36,6 +36,41 @@ def regenerate_tables():
     rc, out = sh([PY, os.path.join(VERIF, 'tools', 'gen_tables.py'), '--repo', REPO])
     return rc == 0, out.strip()
 
+def regenerate_src():
+    """translate the integer core of the current source into lean/A5/Gen/Src.lean (tools/py2lean.py)"""
+    rc, out = sh([PY, os.path.join(VERIF, 'tools', 'py2lean.py'), '--repo', REPO])
+    return rc == 0, out.strip()
+
+SRC_OPS = {'res', 'des', 'ser', 'children', 'parent', 'res0', 'first', 'stride', 'ncells', 'nchildren', 'compact', 'uncompact', 'key'}
+SRCDRIVER = os.path.join(LEAN, '.lake', 'build', 'bin', 'srcdriver')
+
+def src_correspondence(ops, tag='src', cap=25000):
+    """run the *translated source* (srcdriver) and the implementation on the integer-core ops: validates the translator and the
+    operator semantics of A5/Model/PySem.lean, the trusted base of the source-level tie"""
+    sel = [o for o in ops if o.split(' ', 1)[0] in SRC_OPS and len(o) < 20000]
+    if len(sel) > cap:
+        step = len(sel) / cap
+        sel = [sel[int(i * step)] for i in range(cap)]
+    if not sel:
+        return {'src_ops': 0, 'src_mismatches': 0}, []
+    drv = py_driver()
+    impl = [drv.run(l) for l in sel]
+    path = os.path.join(WORK, f'{tag}_{os.getpid()}.txt')
+    with open(path, 'w') as f:
+        f.write('\n'.join(sel) + '\n')
+    try:
+        with open(path) as fin:
+            p = subprocess.run([SRCDRIVER], stdin=fin, stdout=subprocess.PIPE, stderr=subprocess.PIPE, text=True, timeout=3000)
+    finally:
+        os.unlink(path)
+    if p.returncode != 0:
+        raise RuntimeError('translated-source driver failed: rc=%s %s' % (p.returncode, p.stderr[-300:]))
+    out = p.stdout.split('\n')[:-1]
+    if len(out) != len(sel):
+        raise RuntimeError(f'translated-source driver returned {len(out)} answers for {len(sel)} ops')
+    mism = [{'op': o[:400], 'impl': a[:400], 'model': b[:400], 'full_op': o} for o, a, b in zip(sel, impl, out) if b != 'skip' and a != b]
+    return {'src_ops': len(sel), 'src_mismatches': len(mism)}, mism
+
 # ---------------------------------------------------------------------------------------------
 # step 2: build
 def lake_build(targets, timeout=3000):
